@@ -97,6 +97,8 @@ struct Tracked {
 		if(it == r.live.end()) { note("C16", "life:destroyed-outside-lifetime", "destructor ran on an object that is not alive (double destruction or never constructed)"); return; }
 		if(self != this) note("C16", "life:relocated-bytewise:destroy", "destructor ran on an object whose bytes were relocated without a constructor");
 		r.live.erase(it); r.destructions++;
+		// make a destroyed object visibly different (a volatile store: lifetime-end dead-store elimination must not drop it)
+		*(volatile int *)&v = -99;
 	}
 	// reading the value is a use
 	int get() const { use(this, "read"); return v; }
